@@ -370,7 +370,7 @@ def decode_opts(data):
 def shards(tier):
     quick = tier == "quick"
     profs = ["general", "raw", "foreign", "raw", "general", "table", "formatting", "head"]
-    return [{"kind": "hyp", "profile": profs[i % len(profs)], "n": 3500 if quick else 50000} for i in range(16)]
+    return [{"kind": "hyp", "profile": profs[i % len(profs)], "n": 3500 if quick else 50000} for i in range(16)] + [{"kind": "long"}]
 
 
 # declarations and other meta elements in front of the soup: what the meta-charset filter may and may not touch
@@ -382,6 +382,17 @@ HEADS = ["", "", "", "", "", "<meta charset=x>", "<meta http-equiv=content-type 
 
 def run_shard(desc, seed, tier):
     acc = Acc()
+    if desc["kind"] == "long":
+        k = 0
+        for text in soup.long_docs():
+            for walker in ("etree", "dom"):
+                for o in ({"quote_attr_values": "legacy", "alphabetical_attributes": True}, {"quote_attr_values": "always", "_encoding": "ascii", "_inject": True},
+                          {"quote_attr_values": "spec", "strip_whitespace": True}):
+                    k += 1
+                    case = {"text": text, "container": None, "scripting": False, "walker": "etree" if o.get("strip_whitespace") else walker, "opts": dict(o)}
+                    acc.add(case, check_case(case))
+        return acc
+
     strat = st.tuples(soup.soup_text(profile=desc["profile"], max_items=30), st.one_of(st.none(), st.none(), st.sampled_from(soup.CONTEXTS)), st.booleans(), st.sampled_from(["etree", "dom"]),
                       st.binary(min_size=13, max_size=13), st.sampled_from(HEADS))
 
